@@ -69,14 +69,23 @@ def positioned_nodes(tree):
 def classify_program(stored, raw):
     """Narrow signatures of the known findings, from the (minimised) failing program."""
     lines = raw.split("\n")
+<<<<<<< HEAD
     if re.search(r"(?m)^\s*@.*\n\s*async\s+def\b", stored):
         return SIG_ASYNC
     if "_pos=" in stored:
         return SIG_POSSTR
+=======
+    if "_pos=" in stored:  # tested first: the decorated-async-def finding is repaired (d0d94f6), this one is open
+        return SIG_POSSTR
+    if any(0x1C <= ord(ch) <= 0x1F for ch in raw):
+        return SIG_FS
+>>>>>>> agent-flat
     for m in re.finditer(r"(?i)#\s*paroxython\s*:\s*(.*)", raw):
         for tok in m.group(1).split():
             if not tok.startswith(("-", "...", "…")) and tok.lstrip("+").split(":")[0].rstrip(".…") in PREREQ:
                 return SIG_HINTPATH
+    if re.search(r"(?m)^\s*@.*\n\s*async\s+def\b", stored):  # repaired (d0d94f6): tested last, the open findings first
+        return SIG_ASYNC
     return None
 
 
@@ -464,7 +473,8 @@ def run(ctx):
         for name, f in [("hint-spans", lambda: stream_hint_spans(ctx, impl, drv)),
                         ("error-span", lambda: stream_error_span(ctx, impl, drv)),
                         ("bindings", lambda: stream_bindings(ctx, impl, drv)),
-                        ("tag-collect", lambda: stream_tag_collect(ctx, impl, drv, real))]:
+                        ("tag-collect", lambda: stream_tag_collect(ctx, impl, drv, real)),
+                        ("tree-model", lambda: __import__("harness.c02_tree", fromlist=["stream"]).stream(ctx, drv))]:
             t = time.time()
             f()
             walls[name] = round(time.time() - t, 1)
@@ -495,8 +505,8 @@ def run(ctx):
     ctx.cov["exercised_only"] = [
         "spans of the 171 other regex features and of the SQL-derived labels/taxa are ordered in-range lines",
         "CPython line numbers lie within the text",
-        "exactly one meta/program occurrence for a parsable program (whole_span / taxonomy)",
-        "C02_node_span / C02_whole_span (flat-AST tree model: see C15/C01)",
+        "that the two captures of whole_span are the first and the last positioned node of the dump (checked on every real "
+        "tree by harness/c02_tree.py; C02_whole_span / C02_meta_program_once are about the matcher and pos_to_span)",
     ]
     known = {k.get("signature") for k in core.load_known() if k.get("property") == ctx.pid and k.get("status") == "finding"}
     unknown = [v for v in ctx.violations if v.get("signature") is None or v.get("signature") not in known]
